@@ -1,0 +1,27 @@
+// +build verif
+
+// Package verifhook provides schedule-perturbation points for the
+// out-of-tree runtime-verification harness.  With the "verif" build tag,
+// Yield calls the function installed with Set (if any).
+package verifhook
+
+import "sync/atomic"
+
+var hook atomic.Value // of func(int)
+
+// Set installs f as the yield hook.  A nil f removes the hook.
+func Set(f func(site int)) {
+	if f == nil {
+		f = func(int) {}
+	}
+	hook.Store(f)
+}
+
+// Yield marks a point where the calling goroutine holds no lock of the
+// package it is called from (or is about to block on one), i.e. a point
+// where the scheduler could legitimately pre-empt it.
+func Yield(site int) {
+	if f, ok := hook.Load().(func(int)); ok {
+		f(site)
+	}
+}
